@@ -107,7 +107,8 @@ func judgeMut(c MutCase) *eng.Fail {
 	nums := []interface{}{decimal.New(3, 0), decimal.New(1, 0), num}
 	strs := []interface{}{"b", "a", "c"}
 	rows := []map[string]interface{}{{"k": "r1"}, {"k": num}}
-	cdata := map[string]interface{}{"d": num, "ns": nums, "ss": strs, "rows": rows}
+	recm := map[string]interface{}{"price": 1.25, "qty": 2, "f32": float32(0.5), "i64": int64(7), "inner": map[string]interface{}{"z": 0.75}}
+	cdata := map[string]interface{}{"d": num, "ns": nums, "ss": strs, "rows": rows, "rec": recm, "fl": 2.5}
 	for k, v := range host {
 		cdata[k] = v
 	}
@@ -118,10 +119,13 @@ func judgeMut(c MutCase) *eng.Fail {
 			b.WriteString(" " + decSnap(n.(*decimal.Big)))
 		}
 		fmt.Fprintf(&b, " %v %v %d %d %d", strs, rows[0]["k"], len(nums), len(strs), len(rows))
+		fmt.Fprintf(&b, " rec{price:%T(%v) qty:%T(%v) f32:%T(%v) i64:%T(%v) z:%T(%v)} fl:%T(%v) keys:%d", recm["price"], recm["price"], recm["qty"], recm["qty"], recm["f32"], recm["f32"], recm["i64"], recm["i64"],
+			recm["inner"].(map[string]interface{})["z"], recm["inner"].(map[string]interface{})["z"], cdata["fl"], cdata["fl"], len(cdata))
 		return b.String()
 	}
 	before := snap()
-	for _, f := range []string{strings.Replace(c.Fn, "%s", "d", -1), "max(ns...)", "min(ns...)", "join(ss, ',')", "includes(ss, 'a')", "mapToArr(rows, 'k')", "[ns, ss]", "max(ns...) + min(ns...)"} {
+	for _, f := range []string{strings.Replace(c.Fn, "%s", "d", -1), "max(ns...)", "min(ns...)", "join(ss, ',')", "includes(ss, 'a')", "mapToArr(rows, 'k')", "[ns, ss]", "max(ns...) + min(ns...)",
+		"rec.price * rec.qty + rec.f32 + rec.i64", "rec.inner.z + this.fl + fl", "[rec!.price, this!.rec.inner!.z]", strings.Replace(c.Fn, "%s", "rec.price", -1), strings.Replace(c.Fn, "%s", "this.fl", -1)} {
 		o, perr := evalSrc(f, cdata)
 		if perr != nil {
 			return eng.F("C07/parse", "%s: %v", f, perr)
